@@ -63,8 +63,7 @@ def gen(c):
         of = ["aero.CL", "aero.CD", "aero.CM", "aero.wing_perf.CDv", "aero.wing_perf.CDw"]
         return "aero", case, pts, of
     fem = "tube" if rng.integers(2) else "wingbox"
-    s.pop("chord_cp")
-    s.pop("sweep")
+    s["taper"] = 0.8
     s.update(fem_model_type=fem, struct_weight_relief=bool(rng.integers(2)), distributed_fuel_weight=bool(fem == "wingbox" and rng.integers(2)),
              exact_failure_constraint=False)
     if fem == "tube":
@@ -98,10 +97,16 @@ def gen(c):
     npts = 2 if model == "multipoint" else 1
     flows = [dict(alpha=3.0, v=150.0, rho=0.5, Mach_number=0.7, load_factor=1.0), dict(alpha=5.0, v=120.0, rho=0.7, Mach_number=0.6, load_factor=2.5)][:npts]
     case = dict(surfaces=[s], flows=flows, compressible=bool(rng.integers(2)), fuel_vol_delta=(fem == "wingbox"), **extra)
+    if rng.random() < 0.3:
+        case["S_ref_total"] = 30.0
     for k in range(2):
         p = {"alpha_0": float(np.round(rng.uniform(0, 6), 2)), "Mach_number_0": float(np.round(rng.uniform(0.55, 0.9), 3)), "v_0": float(rng.uniform(100, 170)),
              "wing.twist_cp": [float(x) for x in np.round(rng.uniform(-2, 2, 2), 2)], "wing.geometry.t_over_c_cp": [float(x) for x in np.round(rng.uniform(0.09, 0.14, 2), 3)],
-             "load_factor_0": float(rng.choice([1.0, 2.5])), "W0": float(rng.uniform(500, 5e3)), "fuel_mass": float(rng.uniform(500, 3e3))}
+             "load_factor_0": float(rng.choice([1.0, 2.5])), "W0": float(rng.uniform(500, 5e3)), "fuel_mass": float(rng.uniform(500, 3e3)),
+             "rho_0": float(rng.uniform(0.3, 0.8)), "wing.sweep": float(np.round(rng.uniform(0, 20), 2)), "wing.taper": float(np.round(rng.uniform(0.6, 1.0), 3)),
+             "wing.geometry.chord_cp": [float(x) for x in np.round(rng.uniform(0.85, 1.15, 2), 3)]}
+        if case.get("S_ref_total") is not None:
+            p["S_ref_total"] = float(rng.uniform(10, 60))
         p.update(tv())
         if npts == 2:
             p["alpha_1"] = float(np.round(rng.uniform(0, 6), 2))
@@ -112,6 +117,7 @@ def gen(c):
     of = ["AS_point_0.CL", "AS_point_0.CD", "AS_point_0.CM", "AS_point_0.fuelburn", "AS_point_0.wing_perf.failure", "AS_point_0.L_equals_W", "wing.structural_mass"]
     if fem == "wingbox":
         of.append("wing_fuel_vol_delta.fuel_vol_delta")
+        of.append("wing.struct_setup.fuel_vols")
     if npts == 2:
         of += ["AS_point_1.CL", "AS_point_1.fuelburn", "AS_point_1.wing_perf.failure"]
     return "as", case, pts, of
@@ -270,9 +276,13 @@ def run_totals(c, o):
                     o._fam("fd/" + fam_kind, m)
                     if m > 1.0:
                         i = int(np.argmax(np.where(ok_fd, diff / tol, 0)))
+                        extra_d = {}
+                        if o_.endswith("fuel_vol_delta") and "wing.struct_setup.fuel_vols" in of:
+                            # sensitivity of the enclosed fuel volumes along this direction (bounds the effect of the known finding)
+                            extra_d["vols_sens"] = float(np.abs(jdot(J, ["wing.struct_setup.fuel_vols"], w, d)).sum())
                         o.violate("fd/" + fam_kind, "%s total d(%s)/d(%s) along %s: reported %.8g, finite differences %.8g +- %.1e" % (
                             mode, o_, w, np.round(d, 3).tolist()[:6], a[sl][i], est[sl][i], err[sl][i]), err=float(diff[i]), tol=float(tol[i]),
-                            tags=ptag + ["mode=" + mode, "of=" + o_.split(".")[-1], "wrt=" + w.split(".")[-1]])
+                            tags=ptag + ["mode=" + mode, "of=" + o_.split(".")[-1], "wrt=" + w.split(".")[-1]], **extra_d)
     o.info["nonzero_blocks"] = nz
     o.nontrivial = nz > 0
 
